@@ -276,9 +276,40 @@ def rename_syms(v, mapping):
     return v
 
 
+def _positions_to_elements(v):
+    """[body(R[n]) for n in range(len(R))]  ==  [body(i) for i in R]   for a range term R, when
+    n occurs in body only as the position R[n]"""
+    _l, var, rng, body = v
+    if not (isinstance(rng, tuple) and len(rng) == 3 and rng[0] == "range" and rng[1] in (0, Aff(0))
+            and isinstance(rng[2], tuple) and len(rng[2]) == 3 and rng[2][0] == "shape"
+            and rng[2][2] in (0, Aff(0)) and isinstance(rng[2][1], tuple)
+            and rng[2][1][:1] == ("range",)):
+        return v
+    R = rng[2][1]
+    pos = ("idx", R, (("sym", var),))
+    marker = ("sym", var + "@elem")
+
+    def sub(t):
+        if t == pos:
+            return marker
+        if isinstance(t, tuple):
+            return tuple(sub(x) for x in t)
+        return t
+
+    def mentions(t):
+        if t == ("sym", var):
+            return True
+        return isinstance(t, tuple) and any(mentions(x) for x in t)
+    new = sub(body)
+    if mentions(new):
+        return v
+    return ("list", var, R, rename_syms(new, {var + "@elem": var}))
+
+
 def canon_lists(v, depth=0):
     """rename the variables of nested list terms to i0, i1, ... from the outside in"""
     if isinstance(v, tuple) and v and v[0] == "list":
+        v = _positions_to_elements(v)
         new = f"i{depth}"
         inner = rename_syms(v[3], {v[1]: new})
         return ("list", new, canon_lists(v[2], depth), canon_lists(inner, depth + 1))
